@@ -94,6 +94,11 @@ def main(tier):
         if b:
             rep.add_bounded(b["name"], b["bound"] + "; " + b["reason"], b["evaluations"], b["failures"])
     rep.add_units(us)
+    from checks import history
+    n2, f2 = history.writers_history()
+    rep.add_bounded("bounded/history-equal-but-distinct-arguments/writers",
+                    f"{n2} ordered pairs of equal-but-distinct arguments (0.0/-0.0, 1/True/1.0, ...) over the fixed-width, float and "
+                    "varint writers: the bytes must be those of the value actually written", n2, f2)
     validate_models(rep, tier)
     rt_pairs(rep)
     rep.assumptions += [
